@@ -8,6 +8,7 @@ pub mod c04;
 pub mod c05;
 pub mod c06;
 pub mod c07;
+pub mod c11;
 pub mod c12;
 pub mod c13;
 pub mod c17;
@@ -26,6 +27,7 @@ pub fn dispatch(cfg: &Config) -> i32 {
         "C05" => c05::run(cfg),
         "C06" => c06::run(cfg),
         "C07" => c07::run(cfg),
+        "C11" => c11::run(cfg),
         "C12" => c12::run(cfg),
         "C13" => c13::run(cfg),
         "C14" => roundtrip::run_c14(cfg),
